@@ -390,6 +390,17 @@ def _r2_path(prog, f, p, owning, acquire, release, by_addr, bad, oks):
             continue
         obj = canon(arg)
         before = evs[:i]
+        # every name of the freed object on this path: its spelling at the free, the value freed, and locals holding it
+        names = {obj}
+        if e.b and e.b[0][0] == "s":
+            names.add(strip_tags(APE.vstr(e.b[0])))
+        grew = True
+        while grew:
+            grew = False
+            for x in before:
+                if x.kind == "store" and x.a.isidentifier() and x.a not in names and x.b[0] == "s" and strip_tags(APE.vstr(x.b)) in names:
+                    names.add(x.a)
+                    grew = True
         fresh = any(x.kind == "store" and x.a == obj and APE.vstr(x.b).startswith(("my_calloc(", "calloc(", "my_malloc(")) for x in before) \
             and obj.isidentifier()
         for (_r, fld) in flds:
@@ -397,20 +408,19 @@ def _r2_path(prog, f, p, owning, acquire, release, by_addr, bad, oks):
             if (rec, fld) in FIELD_EXCEPTIONS:
                 continue
             ref = "%s->%s" % (obj, fld)
+            refs = set("%s->%s" % (nm, fld) for nm in names)
+            arefs = set("&" + r_ for r_ in refs)
             handled = False
             assigned = False
             for x in before:
                 if x.kind == "call":
-                    for a in call_args(x.node):
-                        ca = canon(a)
-                        if ca in (ref, "&" + ref):
+                    spelled = [canon(a) for a in call_args(x.node)] + [strip_tags(APE.vstr(v)) for v in x.b if v[0] == "s"]
+                    for ca in spelled:
+                        if ca in refs or ca in arefs:
                             if x.a in release or x.a.startswith("(*") or x.a in ("munmap",):
                                 handled = True
-                            elif ca == ref and x.a not in ("assert",):
-                                # value handed to another function (transfer / registration)
-                                pass
                 elif x.kind == "store":
-                    if re.sub(r"@\d+", "", x.a) == ref:
+                    if re.sub(r"@\d+", "", x.a) in refs:
                         vs = APE.vstr(x.b)
                         assigned = True
                         if x.b == ("c", 0):
@@ -419,7 +429,7 @@ def _r2_path(prog, f, p, owning, acquire, release, by_addr, bad, oks):
                         for kfn, kind in acquire.items():
                             if vs.startswith(kfn + "(") and failed_acquire(p, vs, kind):
                                 assigned = False
-                    elif APE.vstr(x.b).split("@")[0] == ref and not x.a.isidentifier():
+                    elif APE.vstr(x.b).split("@")[0] in refs and not x.a.isidentifier():
                         handled = True   # moved into another object
                 elif x.kind == "ret":
                     pass
